@@ -1,9 +1,9 @@
 (* C10 — shared codecs and schema caches are safe for concurrent use.
    Only statements, closed by [exact lemma], with Print Assumptions beneath. *)
 From Coq Require Import String List NArith Bool.
-From J5V.model Require Import Conc ConcKey ConcSites ConcCorr ConcRace ConcStatement ConcState ConcRW.
+From J5V.model Require Import Conc ConcKey ConcSites ConcCorr ConcRace ConcStatement ConcState ConcRW ConcHB.
 From J5V.gen Require ConcGen ConcStateGen.
-From J5V.proofs Require Import ConcProofs ConcLeafProofs ConcInvProofs ConcTermProofs ConcMainProofs ConcRetProofs ConcRaceProofs ConcFullProofs ConcKeyProofs ConcRWProofs.
+From J5V.proofs Require Import ConcProofs ConcLeafProofs ConcInvProofs ConcTermProofs ConcMainProofs ConcRetProofs ConcRaceProofs ConcFullProofs ConcKeyProofs ConcRWProofs ConcHBProofs.
 Import ListNotations.
 Local Open Scope N_scope.
 
@@ -518,3 +518,27 @@ Example C10_nested_rlock_table_rejected :
   option_map (fun f => lock_program (lock_fuel ConcGen.cache_methods) ConcGen.cache_methods (snd f))
              (find_fn ConcGen.cache_methods "Schema") = Some (Some [LLock; LUnlock]).
 Proof. split; [exact (proj2 nested_table_programs)|exact code_schema_program]. Qed.
+
+(* ---- data-race freedom against an explicit happens-before ----------------------------------- *)
+(* ConcHB.hb: the fragment of the Go memory model the modelled sites use, as an inductive relation on
+   trace positions — sequenced-before (program order of one goroutine), synchronized-before for
+   sync.Mutex (an Unlock before every later Lock return), transitive closure.  For all universes, call
+   lists, schedules and package assignments, every pair of conflicting accesses of the guarded machine
+   (maps, registered list, To fields; the callers' lock-free reads of the schema they were handed
+   included) is related by it, and every To field is written once.  PARTIAL as before in one respect
+   only: that these events are the Go code's accesses rests on the token tables, the census and the
+   race-detector runs. *)
+Theorem C10_drf_guarded_partial : C10_drf_statement Guarded.
+Proof. exact guarded_drf. Qed.
+Print Assumptions C10_drf_guarded_partial.
+
+(* hb relates only earlier to later positions (so "concurrent" = not hb i j for i < j) *)
+Theorem C10_hb_respects_trace_order : forall tr i j, hb tr i j -> (i < j)%nat.
+Proof. exact hb_lt. Qed.
+Print Assumptions C10_hb_respects_trace_order.
+
+(* and it is not vacuous: the lock-free trace of the first refutation witness has two conflicting
+   writes of SchemaCache.registered by different goroutines that hb does not relate *)
+Theorem C10_unguarded_not_drf : ~ drf w1_trace.
+Proof. exact unguarded_not_drf. Qed.
+Print Assumptions C10_unguarded_not_drf.
